@@ -43,6 +43,14 @@ pub broadcast proof fn axiom_string_str_eq(a: &String, b: &str)
 pub broadcast proof fn axiom_string_str_obeys()
     ensures #[trigger] <String as PartialEqSpec<str>>::obeys_eq_spec(),
 {}
+#[verifier::external_body]
+pub broadcast proof fn axiom_string_refstr_eq(a: &String, b: &&str)
+    ensures #[trigger] PartialEqSpec::<&str>::eq_spec(a, b) == (a@ == (*b)@),
+{}
+#[verifier::external_body]
+pub broadcast proof fn axiom_string_refstr_obeys()
+    ensures #[trigger] <String as PartialEqSpec<&str>>::obeys_eq_spec(),
+{}
 /// T6: lossy UTF-8 decoding reads "v4" exactly for the two bytes 0x76 0x34
 #[verifier::external_body]
 pub broadcast proof fn axiom_lossy_v4(b: Seq<u8>)
@@ -72,6 +80,11 @@ pub broadcast proof fn axiom_vec_len_bound(v: &Vec<u8>)
 #[verifier::external_body]
 pub broadcast proof fn axiom_bm_len_bound(v: &BytesMut)
     ensures #[trigger] bmview(v).len() <= 0x8000_0000_0000,
+{}
+/// T6': the UTF-8 encoding of the two ASCII characters "v4" is 0x76 0x34
+#[verifier::external_body]
+pub proof fn axiom_utf8_v4()
+    ensures utf8(seq!['v', '4']) == seq![0x76u8, 0x34u8],
 {}
 /// T2: ordering of byte slices is lexicographic
 #[verifier::external_body]
@@ -183,7 +196,7 @@ pub broadcast proof fn axiom_ip6_len(a: std::net::Ipv6Addr)
 {}
 
 pub broadcast group group_trusted {
-    axiom_slice_eq, axiom_slice_obeys, axiom_slice_ext, axiom_bytes_from_vec, axiom_bytes_from_vec_obeys, axiom_vec_len_bound, axiom_bm_len_bound, axiom_arr_eq, axiom_arr_obeys, axiom_vec_eq, axiom_vec_obeys, axiom_string_str_eq, axiom_string_str_obeys, axiom_lossy_v4, axiom_slice_ord, axiom_slice_pord_obeys,
+    axiom_slice_eq, axiom_slice_obeys, axiom_slice_ext, axiom_bytes_from_vec, axiom_bytes_from_vec_obeys, axiom_vec_len_bound, axiom_bm_len_bound, axiom_arr_eq, axiom_arr_obeys, axiom_vec_eq, axiom_vec_obeys, axiom_string_str_eq, axiom_string_str_obeys, axiom_string_refstr_eq, axiom_string_refstr_obeys, axiom_lossy_v4, axiom_slice_ord, axiom_slice_pord_obeys,
     axiom_vecu8_ord, axiom_vecu8_ord2, axiom_vecu8_borrow, axiom_vecu8_ext,
     axiom_contains_borrowed, axiom_maps_borrowed, axiom_removed_borrowed, axiom_vecu8_cmp,
     axiom_vec_ref, axiom_str_ref, axiom_vec_of, axiom_vec_from_str, axiom_vec_from_slice, axiom_vec_from_str_obeys, axiom_vec_from_slice_obeys, axiom_array_ref, axiom_bytes_of,
